@@ -11,6 +11,8 @@ struct Case {
 	m: ModelGame,
 	hash: bool,
 	comp: Comp,
+	/// bytes of unknown-event filler between the frames and the Game End (distance to skip)
+	pad: usize,
 }
 
 fn gen_case(dna: &[u8], cfg: &crate::gen::GenCfg) -> Case {
@@ -20,7 +22,8 @@ fn gen_case(dna: &[u8], cfg: &crate::gen::GenCfg) -> Case {
 	cfg.finished = true;
 	// a share of files from newer versions (longer known payloads, incl. Game End): still finished replays
 	cfg.newer = f >= 216;
-	Case { m: super::gen_model_mixed(&mut d, &cfg, true), hash: f & 1 != 0, comp: Comp::ALL[(f as usize >> 1) % 3] }
+	let pad = if d.u8() >= 240 { [8_000usize, 65_000, 131_000][d.below(3)] + d.below(2_000) } else { 0 };
+	Case { m: super::gen_model_mixed(&mut d, &cfg, true), hash: f & 1 != 0, comp: Comp::ALL[(f as usize >> 1) % 3], pad }
 }
 
 fn se_opts() -> CmpOpts {
@@ -45,11 +48,14 @@ fn same_sem(a: &peppi::game::immutable::Game, b: &peppi::game::immutable::Game) 
 
 fn check(ctx: &Ctx, c: &Case, label: &str, counting: bool) -> Result<(), Fail> {
 	let m = &c.m;
-	let bytes = m.encode();
+	let bytes = super::encode_padded(m, c.pad);
 	if counting {
 		ctx.eval();
 		let f = classify(ctx, m);
 		ctx.class(label);
+		if c.pad > 0 {
+			ctx.class(&format!("skip_distance>={}KiB", [8192, 4096, 1024, 64, 8].iter().find(|k| c.pad >= **k * 1024).copied().unwrap_or(0)));
+		}
 		ctx.class(if c.hash { "hash_on" } else { "hash_off" });
 		ctx.class(&format!("compression={}", c.comp.name()));
 		if f.frames >= 1 && (f.gecko || f.double_end || !f.metadata || c.hash) {
@@ -184,13 +190,24 @@ fn forced(i: usize) -> Case {
 	if spec::gte((ma, mi), (3, 3)) && var % 2 == 0 {
 		m.gecko = Some(crate::model::Gecko { bytes: vec![7u8; 512], actual: 100 + i as u32 % 400 });
 	}
-	Case { m, hash: var % 2 == 1, comp: Comp::ALL[i % 3] }
+	Case { m, hash: var % 2 == 1, comp: Comp::ALL[i % 3], pad: 0 }
+}
+
+/// distances between Game Start and Game End that cross 8 KiB .. 16 MiB (not multiples of any of them)
+const HUGE_PADS: [usize; 6] = [8_193, 65_537, 300_001, (1 << 20) + 5, (8 << 20) + 4_321, (16 << 20) + 17];
+fn huge(i: usize) -> Case {
+	let pad = HUGE_PADS[i % HUGE_PADS.len()];
+	let var = i / HUGE_PADS.len();
+	let v = [(0, 1, 0), (3, 16, 0), (2, 0, 1)][var % 3];
+	let m = crate::gen::simple_model(v, &[(0, false), (1, false)], 2, i as u64 + 3, crate::gen::Pattern::Random, 1 + (var % 2) as u8, var % 2 == 0);
+	Case { m, hash: var % 2 == 0, comp: Comp::ALL[i % 3], pad }
 }
 
 pub fn case(ctx: &Ctx, kind: &str, params: &Value, counting: bool) -> Result<(), Fail> {
 	match kind {
 		"forced" => check(ctx, &forced(params["i"].as_u64().unwrap_or(0) as usize), "forced", counting),
 		"chain" => chain_case(ctx, &dna_param(params), counting),
+		"huge" => check(ctx, &huge(params["i"].as_u64().unwrap_or(0) as usize), "huge", counting),
 		_ => check(ctx, &gen_case(&dna_param(params), &cfg(ctx)), "dna", counting),
 	}
 }
@@ -237,6 +254,9 @@ pub fn run(ctx: &Ctx) -> usize {
 	}
 	let cfg = cfg(ctx);
 	if run_dna(ctx, "dna", ctx.n(8_000, 400_000), dna_max(ctx), |dna, counting| check(ctx, &gen_case(dna, &cfg), "dna", counting)).is_some() {
+		violations += 1;
+	}
+	if violations == 0 && run_enum(ctx, "huge", HUGE_PADS.len() * ctx.n(2, 6), |i| json!({ "i": i }), |i| check(ctx, &huge(i), "huge", true)).is_some() {
 		violations += 1;
 	}
 	if violations == 0 && run_dna(ctx, "chain", ctx.n(4_000, 150_000), dna_max(ctx), |dna, counting| chain_case(ctx, dna, counting)).is_some() {
